@@ -47,18 +47,24 @@ def shards(tier):
     return out
 
 
-def wire(corrupt: bytes, good_frame: bytes):
-    """LAN.send with a corrupted reply, then a second send answered honestly."""
+def wire(corrupt: bytes, good_frame: bytes, authentic_first: bytes = None):
+    """[LAN.send answered by the authentic packet,] LAN.send with a corrupted reply, then a send answered honestly."""
     w = World()
     good = rc.v2_build(good_frame, 0x1122334455)
+    k = 1 if authentic_first is not None else 0
 
     def on_data(conn, data, i):
-        conn.deliver(corrupt if i == 0 else good, 0.01)
+        conn.deliver(authentic_first if i < k else corrupt if i == k else good, 0.01)
 
     w.net.listen(IP, PORT, ScriptPeer(on_data))
     lan = LAN(IP, PORT, 0x1122334455)
 
     async def drive():
+        if k:
+            try:
+                await lan.send(CMD)
+            except BaseException:  # noqa: BLE001
+                pass
         try:
             r1 = ("ok", await lan.send(CMD))
         except BaseException as e:  # noqa: BLE001
@@ -76,7 +82,13 @@ def wire(corrupt: bytes, good_frame: bytes):
         w.close()
 
 
-def direct(corrupt: bytes):
+def direct(corrupt: bytes, authentic_first: bytes = None):
+    if authentic_first is not None:
+        # history: the authentic packet was received (and accepted) before the damaged copy arrives
+        try:
+            _Packet.decode(authentic_first)
+        except Exception:  # noqa: BLE001 - judged elsewhere (C02)
+            pass
     try:
         return ("ok", _Packet.decode(corrupt))
     except ProtocolError:
@@ -116,11 +128,18 @@ def run_shard(shard, tier) -> Stats:
                 det.check((r1, r2), wire(m, frame), case)
             if r1[0] != "ProtocolError":
                 st.violation(f"bitflip field={field(bit // 8, len(pkt))} -> {r1[0]}", case, "ProtocolError", r1)
+            if bit % 3 == 0:
+                p1, p2 = wire(m, frame, pkt)
+                if p1[0] != "ProtocolError":
+                    st.violation(f"bitflip after an authentic exchange field={field(bit // 8, len(pkt))} -> {p1[0]}", {**case, "primed": True},
+                                 "ProtocolError", p1)
             if r2 != ("ok", [frame]):
                 st.violation(f"exchange after rejected packet -> {r2[0]}", case, ("ok", [frame]), r2)
-            d = direct(m)
-            if d[0] != "ProtocolError":
-                st.violation(f"bitflip(decode) field={field(bit // 8, len(pkt))} -> {d[0]}", case, "ProtocolError", d)
+            for primed in (None, pkt):
+                d = direct(m, primed)
+                if d[0] != "ProtocolError":
+                    st.violation(f"bitflip(decode{', after the authentic packet' if primed else ''}) field={field(bit // 8, len(pkt))} -> {d[0]}",
+                                 {**case, "primed": primed is not None}, "ProtocolError", d)
             st.ev((kind, n, bit), r1[0], True, sample=None if bit != 333 else {**case, "packet": m.hex()})
     elif kind == "trunc":
         for k in range(1, len(pkt)):
@@ -137,11 +156,12 @@ def run_shard(shard, tier) -> Stats:
             for mask in masks:
                 m = bytearray(pkt)
                 m[i] ^= mask
-                d = direct(bytes(m))
-                if d[0] != "ProtocolError":
-                    st.violation(f"substitution field={field(i, len(pkt))} -> {d[0]}", {"kind": kind, "len": n, "pos": i, "xor": mask},
-                                 "ProtocolError", d)
-                st.ev((kind, n, i, mask), d[0], True)
+                for primed in (None, pkt):
+                    d = direct(bytes(m), primed)
+                    if d[0] != "ProtocolError":
+                        st.violation(f"substitution{' after the authentic packet' if primed else ''} field={field(i, len(pkt))} -> {d[0]}",
+                                     {"kind": kind, "len": n, "pos": i, "xor": mask, "primed": primed is not None}, "ProtocolError", d)
+                    st.ev((kind, n, i, mask, primed is not None), d[0], True)
     elif kind == "pairs":
         masks = [0x01, 0x80, 0xFF]
         L = len(pkt)
@@ -164,6 +184,7 @@ def run_shard(shard, tier) -> Stats:
 def replay(case):
     frame, pkt = authentic(case["len"])
     m = bytearray(pkt)
+    primed = pkt if case.get("primed") else None
     if case["kind"] == "bits":
         m[case["bit"] // 8] ^= 1 << (case["bit"] % 8)
     elif case["kind"] == "trunc":
@@ -173,4 +194,4 @@ def replay(case):
     else:
         for p, x in zip(case["pos"], case["xor"]):
             m[p] ^= x
-    return {"wire": wire(bytes(m), frame), "decode": direct(bytes(m))[0]}
+    return {"wire": wire(bytes(m), frame, primed), "decode": direct(bytes(m), primed)[0]}
